@@ -190,12 +190,29 @@ def witness(bs, ns):
     return None
 
 
+class TooManyHangs(Exception):
+    pass
+
+
+_HANGS = [0]
+MAX_HANGS = 6
+
+
+def note_hang():
+    """A tree on which calls hang would otherwise cost 10 s per generated call: after MAX_HANGS hangs the shard stops (the hangs seen are
+    reported, the cap is recorded in the evidence and the run is not called exhaustive)."""
+    _HANGS[0] += 1
+    if _HANGS[0] >= MAX_HANGS:
+        raise TooManyHangs()
+
+
 def timed(ns, src):
     """run_src under the per-call watchdog; a call that does not return within 10 s is the observation ('exc', 'HANG')."""
     try:
         with core.watchdog(10):
             return run_src(ns, src)
     except core.Hang:
+        note_hang()
         return ('exc', 'HANG')
 
 
@@ -253,6 +270,8 @@ def run_shard(shard, acc):
             arrays(bs, acc, shard)
         else:
             dtype_pack(bs, acc, shard)
+    except TooManyHangs:
+        acc.cap(f"shard stopped after {MAX_HANGS} calls that did not return within 10 s")
     finally:
         core.set_options()
         ctx.close()
@@ -333,6 +352,7 @@ def methods(bs, acc, ctx, shard):
                         got = run_src(dict(ns, G=got[1]), "list(__import__('itertools').islice(G, 40))")
             except core.Hang:
                 judge(acc, 'call', src, pre, ('exc', 'HANG'), None, group=name)
+                note_hang()
                 continue
             op = 'operator' if name.startswith('__') else 'call'
             obs_ = (got[0], got[1] if got[0] == 'exc' else None)
@@ -357,6 +377,8 @@ def methods(bs, acc, ctx, shard):
                     except core.Hang:
                         g2 = ('exc', 'HANG')
                     judge(acc, 'call', b2, pre + ["try:", f"    {src}", "except Exception:", "    pass"], (g2[0], g2[1] if g2[0] == 'exc' else None), invariants(bs, ns['s'], None if cls in ('BitArray', 'BitStream') else snap, cls) or witness(bs, ns), group='seq|' + name)
+                    if g2 == ('exc', 'HANG'):
+                        note_hang()
                     if not q:
                         g3 = run_src(ns, battery[(len(b2) + len(src)) % len(battery)])
                         judge(acc, 'call', battery[(len(b2) + len(src)) % len(battery)], pre + ["try:", f"    {src}", f"    {b2}", "except Exception:", "    pass"], (g3[0], g3[1] if g3[0] == 'exc' else None),
@@ -493,6 +515,7 @@ def arrays(bs, acc, shard):
                             got = run_src(dict(ns, G=got[1]), "list(__import__('itertools').islice(G, 40))")
                 except core.Hang:
                     judge(acc, 'array', src, pre, ('exc', 'HANG'), None, group='A.' + name)
+                    note_hang()
                     continue
                 problem = arr_inv(bs, ns['a'])
                 if got[0] == 'ok' and isinstance(got[1], bs.Array) and problem is None:
